@@ -49,6 +49,11 @@ func TestMain(m *testing.M) {
 			"the other whenever one of them is a working signer, and identical Raw bytes (RSA exempt from the last clause only: several valid PKCS#1 encodings of one key; counted as equal-other-encoding); "+
 			"identical Raw => Equal; not Equal and different public keys => no cross-verification. The same rule judges (original, candidate) in TestKeyMutation, TestKeyEveryPosition and FuzzKeys. "+
 			"colliding (domain, payload type, payload) triples constructed for six weaker-than-specified pre-image encodings, foreign key and foreign domain pairings. "+
+			"CONFIGURATION (peer IDs): the process-wide option peer.AdvancedEnableInlining is a drawn dimension of TestPeerID and TestPeerIDMutation (documented default on in 2 of 3 cases, off in 1 of 3; set at the top of the case, put back by defer; "+
+			"no test of the package runs in parallel), both values are enumerated by TestPeerIDThreshold, and FuzzPeerID takes it from bit 7 of its form byte. Under either setting the ID derived locally must equal the reference definition FOR THAT SETTING "+
+			"(identity multihash iff inlining is on and the marshalled key has <= 42 bytes, else sha2-256) and match its own key; and BOTH IDs of the key - the one a peer with inlining on derives and the one a peer with inlining off derives, each received "+
+			"through a drawn serialized form (binary / base58 / CID text in four bases / JSON / AddrInfo JSON) - must round-trip in every form and give the key back exactly when they embed it (identity multihash of the marshalled key), whatever the local setting; "+
+			"TestPeerIDMutation mutates the serialized forms of either ID under either setting. Labels inlining:on / inlining:off, inlining:off+remote-id-embeds-key (TestPeerID) and inlining:off/id-embeds-key (TestPeerIDMutation) count the class. "+
 			"Oracle: round trips; independent peer ID definition; metamorphic acceptance rule (accepted => decoded (signer key, payload type, payload) and the requested "+
 			"domain are exactly a sealed tuple; for peerstores additionally record.PeerID == ID of the signing key). "+
 			"One evaluation = one candidate input judged by every applicable receiver (ConsumeTypedEnvelope with a record of the requested domain, ConsumeEnvelope, typed PeerRecord / ReservationVoucher receivers, both address books). NON-TRIVIAL = the candidate is mutated / foreign / colliding / mismatched (not the plain round trip). "+
@@ -59,6 +64,8 @@ func TestMain(m *testing.M) {
 		"'supported' RSA sizes are the documented bounds MinRsaKeyBits (2048) <= bits <= 8192, both included; keys outside are not required to be accepted, and out-of-bounds keys wrapped by KeyPairFromStdKey (which checks no size) are not judged",
 		"the library's own generation of 8191/8192-bit RSA keys is not run (minutes per key): keys of these sizes are fixtures, GenerateRSAKeyPair's size check is probed with a reader that fails; RSA sizes strictly between 2049 and 8191 are not sampled",
 		"peer IDs obtained by mutation that use a multihash other than identity / sha2-256 are only required to round-trip through binary and CID text (Decode documents base58 for identity/sha2-256 only)",
+		"MatchesPublicKey is judged against the ID this process derives under its CURRENT AdvancedEnableInlining setting (the library re-derives the ID; the statement does not say that an ID derived under the other setting 'matches'); "+
+			"only validity, round trips and key recovery are demanded of IDs derived under the other setting. Envelope / peerstore / key tests run under the default setting only",
 	)
 	hx.Main(m)
 }
@@ -96,7 +103,11 @@ func mustKP(cls, tag string, priv ic.PrivKey, err error) *kp {
 	if err != nil {
 		panic(err)
 	}
+	// kp.id is always the ID under the default setting, whatever setting the case that
+	// happens to create (and, for pool keys, cache) the key runs under
+	restore := setInlining(true)
 	id, err := peer.IDFromPublicKey(pub)
+	restore()
 	if err != nil {
 		panic(err)
 	}
@@ -145,14 +156,41 @@ func fixedRSAKey() *kp {
 // refID is the peer ID definition from the statement, computed without the multihash
 // library: identity multihash of the marshalled key if that is at most 42 bytes long,
 // else the sha2-256 multihash.
-func refID(marshalledKey []byte) peer.ID {
-	if len(marshalledKey) <= 42 {
+func refID(marshalledKey []byte) peer.ID { return refIDSetting(marshalledKey, true) }
+
+// refIDSetting is the same definition for a given value of the configuration option
+// peer.AdvancedEnableInlining of the process that DERIVES the ID: with inlining off
+// every key is hashed.
+func refIDSetting(marshalledKey []byte, inlining bool) peer.ID {
+	if inlining && len(marshalledKey) <= 42 {
 		out := []byte{0x00}
 		out = binary.AppendUvarint(out, uint64(len(marshalledKey)))
 		return peer.ID(append(out, marshalledKey...))
 	}
 	h := sha256.Sum256(marshalledKey)
 	return peer.ID(append([]byte{0x12, 0x20}, h[:]...))
+}
+
+// setInlining sets the process-wide option peer.AdvancedEnableInlining and returns the
+// function that puts the previous value back: `defer setInlining(v)()` at the top of a
+// case. No test of this package runs in parallel with another (no t.Parallel).
+func setInlining(v bool) (restore func()) {
+	old := peer.AdvancedEnableInlining
+	peer.AdvancedEnableInlining = v
+	return func() { peer.AdvancedEnableInlining = old }
+}
+
+// drawInlining draws the configuration dimension: the option is at its documented
+// default (true) in two of three cases and off in the third.
+func drawInlining(rt *rapid.T) bool { return drawInliningOf(rt, "inlining-setting") }
+
+func drawInliningOf(rt *rapid.T, label string) bool { return drawUniform(rt, label, 3) != 0 }
+
+func inlLabel(inl bool) string {
+	if inl {
+		return "inlining:on"
+	}
+	return "inlining:off"
 }
 
 // ---------------------------------------------------------------------------
